@@ -73,6 +73,72 @@ def guarded(f):
         return "error:" + type(e).__name__
 
 
+
+def pandas_diff(a, b):
+    """None if the two pandas objects are the same in type, index (values, dtype, names), columns / name,
+    dtypes and values bit for bit; else a short description of the first difference."""
+    if type(a) is not type(b):
+        return f"type {type(b).__name__} -> {type(a).__name__}"
+    if not (a.index.equals(b.index) and a.index.dtype == b.index.dtype and list(a.index) == list(b.index)):
+        return f"index {list(b.index)!r} -> {list(a.index)!r}"
+    if list(a.index.names) != list(b.index.names):
+        return f"index names {list(b.index.names)!r} -> {list(a.index.names)!r}"
+    if isinstance(a, pd.DataFrame):
+        if list(a.columns) != list(b.columns):
+            return f"columns {list(b.columns)!r} -> {list(a.columns)!r}"
+        if list(a.dtypes) != list(b.dtypes):
+            return f"dtypes {list(b.dtypes)!r} -> {list(a.dtypes)!r}"
+        for col in a.columns:
+            for lab, x, y in zip(a.index, a[col].to_numpy(), b[col].to_numpy()):
+                if f2h(x) != f2h(y):
+                    return f"{col}[{lab!r}] {float(y)!r} -> {float(x)!r}"
+        return None
+    if a.name != b.name:
+        return f"name {b.name!r} -> {a.name!r}"
+    if a.dtype != b.dtype:
+        return f"dtype {b.dtype!r} -> {a.dtype!r}"
+    for lab, x, y in zip(a.index, a.to_numpy(), b.to_numpy()):
+        if f2h(x) != f2h(y):
+            return f"{lab} {float(y)!r} -> {float(x)!r}"
+    return None
+
+
+def bits(r):
+    """bit pattern(s) of a scalar / array / Series result, with the index of a Series"""
+    if isinstance(r, pd.Series):
+        return (tuple(r.index.names), tuple(r.index), tuple(f2h(x) for x in r.to_numpy()))
+    if isinstance(r, pd.DataFrame):
+        return (tuple(r.index), tuple(r.columns), tuple(f2h(x) for x in r.to_numpy().reshape(-1)))
+    return tuple(f2h(x) for x in np.asarray(r, dtype=np.float64).reshape(-1))
+
+
+def evaluation_leaves_signal_alone(make, ops, what):
+    """The clause 'an evaluation does not alter the curve': `make()` builds (user object, accessor) afresh;
+    for every (label, op) in ops: deep copies of the user's pandas object and of the accessor's curve are taken,
+    op(accessor) is evaluated, both must be the same afterwards (values bit for bit, index, names, dtype), a second
+    evaluation on the SAME accessor and one on a FRESH signal must be bit-identical to the first."""
+    for label, op in ops:
+        user, w = make()
+        user0 = user.copy(deep=True)
+        own0 = w.to_pandas().copy(deep=True)
+        fp0 = bits(w.failure_probability)
+        r1 = bits(op(w))
+        d = pandas_diff(user, user0)
+        if d is not None:
+            return (f"{label} altered the pandas object the accessor was created from ({d}); {what}", "signal-altered")
+        d = pandas_diff(w.to_pandas(), own0)
+        if d is not None:
+            return (f"{label} altered the curve held by the accessor ({d}); {what}", "signal-altered")
+        if bits(w.failure_probability) != fp0:
+            return (f"{label} altered the accessor's failure_probability; {what}", "signal-altered")
+        r2 = bits(op(w))
+        if r2 != r1:
+            return (f"{label}: a second evaluation on the same accessor differs from the first ({r1[-1] if isinstance(r1[-1], tuple) else r1} vs {r2[-1] if isinstance(r2[-1], tuple) else r2}, bit patterns); {what}", "evaluation-not-repeatable")
+        r3 = bits(op(make()[1]))
+        if r3 != r1:
+            return (f"{label}: the evaluation on a fresh signal differs from the one on a used accessor; {what}", "evaluation-not-repeatable")
+    return None
+
 # ------------------------------------------------------------------ generators
 def loguni(rng, lo, hi):
     return 10.0 ** rng.uniform(math.log10(lo), math.log10(hi))
@@ -242,7 +308,7 @@ class C08(Prop):
                         yield {"t": "curve", "k1": k1, "k2": k2, "SD": SD, "ND": ND, "TN": TN, "TS": TS, "pf0": pf0,
                                "pfs": [0.1, 0.5, 0.9], "loads": [SD * 10.0 ** (j / 4.0) for j in range(-4, 5)],
                                "cycles": [ND * 10.0 ** (j / 2.0) for j in range(-4, 5)], "src": "grid"}
-        n_curve = 260 if quick else 2000
+        n_curve = 240 if quick else 2000
         for i in range(n_curve):
             c = gen_curve(rng)
             c["t"] = "curve"
@@ -289,7 +355,11 @@ class C08(Prop):
                 rng.shuffle(vals)
                 vals = vals[:n]
             pf = rng.choice([0.5, native_pf(ref), gen_pf(rng)])
-            yield {"t": "bc", "mode": mode, "curves": curves, "vals": vals, "pf": pf}
+            case = {"t": "bc", "mode": mode, "curves": curves, "vals": vals, "pf": pf}
+            if mode in ("zip_series", "zip_array"):
+                # oracle only: a failure probability per row of the frame (array parameter against a DataFrame signal)
+                case["pf_rows"] = [rng.choice([pf, gen_pf(rng)]) for _ in curves]
+            yield case
         n_sc = 40 if quick else 400
         for i in range(n_sc):
             yield {"t": "sc", "T": rng.choice([1.0, 1.0 + loguni(rng, 1e-6, 100.0)]),
@@ -334,37 +404,50 @@ class C08(Prop):
         df = pd.DataFrame(rows, index=pd.Index([3 * i + 2 for i in range(len(rows))], name="curve"))
         return df
 
-    def _bc_impl(self, case):
-        """The broadcast call on the real code, flattened in the model's order."""
-        mode, vals, pf = case["mode"], [float(v) for v in case["vals"]], float(case["pf"])
+    def _bc_signal(self, case):
+        """(pandas object the user holds, accessor) of a broadcast case, built afresh."""
         curves = case["curves"]
-        if mode in ("series", "array", "list", "lseries", "larray"):
-            w = accessor(curves[0], curve_series(curves[0]))
-            if mode == "series":
-                idx = pd.Index([10 + 2 * i for i in range(len(vals))], name="x")
-                r = w.cycles(pd.Series(vals, index=idx), pf)
-                assert isinstance(r, pd.Series) and list(r.index) == list(idx)
-                return [float(x) for x in r.values]
-            if mode == "array":
-                return [float(x) for x in np.asarray(w.cycles(np.array(vals), pf)).reshape(-1)]
-            if mode == "list":
-                return [float(x) for x in np.asarray(w.cycles(list(vals), pf)).reshape(-1)]
-            if mode == "lseries":
-                idx = pd.Index([10 + 2 * i for i in range(len(vals))], name="x")
-                r = w.load(pd.Series(vals, index=idx), pf)
-                assert isinstance(r, pd.Series) and list(r.index) == list(idx)
-                return [float(x) for x in r.values]
-            return [float(x) for x in np.asarray(w.load(np.array(vals), pf)).reshape(-1)]
+        if case["mode"] in ("series", "array", "list", "lseries", "larray"):
+            obj = curve_series(curves[0])
+            return obj, accessor(curves[0], obj)
         df = self._frame(curves)
-        w = df.woehler
-        if mode == "cross":
-            idx = pd.Index([10 + 2 * i for i in range(len(vals))], name="x")
-            r = w.cycles(pd.Series(vals, index=idx), pf)
-            return [float(r[(ci, xi)]) for ci in df.index for xi in idx]
+        return df, df.woehler
+
+    def _bc_raw(self, case, w, pf=None):
+        """The broadcast call on the real code: the raw result."""
+        mode, vals = case["mode"], [float(v) for v in case["vals"]]
+        pf = float(case["pf"]) if pf is None else pf
+        idx = pd.Index([10 + 2 * i for i in range(len(vals))], name="x")
+        if mode in ("series", "cross"):
+            return w.cycles(pd.Series(vals, index=idx), pf)
+        if mode in ("array", "zip_array"):
+            return w.cycles(np.array(vals), pf)
+        if mode == "list":
+            return w.cycles(list(vals), pf)
+        if mode == "lseries":
+            return w.load(pd.Series(vals, index=idx), pf)
+        if mode == "larray":
+            return w.load(np.array(vals), pf)
         if mode == "zip_series":
-            r = w.cycles(pd.Series(vals, index=df.index), pf)
-            return [float(r[ci]) for ci in df.index]
-        return [float(x) for x in np.asarray(w.cycles(np.array(vals), pf)).reshape(-1)]
+            return w.cycles(pd.Series(vals, index=w.to_pandas().index), pf)
+        raise ValueError(mode)
+
+    def _bc_flat(self, case, w, r):
+        """... flattened in the model's order."""
+        mode, vals = case["mode"], case["vals"]
+        idx = [10 + 2 * i for i in range(len(vals))]
+        if mode in ("series", "lseries"):
+            assert isinstance(r, pd.Series) and list(r.index) == idx and list(r.index.names) == ["x"]
+            return [float(x) for x in r.values]
+        if mode == "cross":
+            return [float(r[(ci, xi)]) for ci in w.to_pandas().index for xi in idx]
+        if mode == "zip_series":
+            return [float(r[ci]) for ci in w.to_pandas().index]
+        return [float(x) for x in np.asarray(r).reshape(-1)]
+
+    def _bc_impl(self, case):
+        _user, w = self._bc_signal(case)
+        return self._bc_flat(case, w, self._bc_raw(case, w))
 
     def impl_lines(self, case):
         fn = _wc()
@@ -477,6 +560,23 @@ class C08(Prop):
         nat = float(base.failure_probability)
         TN, TS = float(base.TN), float(base.TS)
         tag = f"k1={k1!r} k2={k2!r} SD={case['SD']!r} ND={case['ND']!r} TN={case.get('TN')!r} TS={case.get('TS')!r} pf0={case.get('pf0')!r}"
+
+        # ---- no evaluation alters the curve; evaluations are repeatable (every target probability, every kind of call)
+        def make():
+            obj = curve_series(case)
+            return obj, accessor(case, obj)
+        L0 = (case["loads"][0] if case["loads"] else 1.3 * case["SD"])
+        N0 = (case["cycles"][0] if case["cycles"] else 0.7 * case["ND"])
+        ops = []
+        for i, p in enumerate(case["pfs"]):
+            ops.append((f"transform_to_failure_probability({p!r})", lambda a, p=p: a.transform_to_failure_probability(p).to_pandas()))
+            if i % 2 == 0 or len(case["pfs"]) == 1:
+                ops.append((f"cycles({L0!r}, {p!r})", lambda a, p=p: a.cycles(L0, p)))
+            if i % 2 == 1 or len(case["pfs"]) == 1:
+                ops.append((f"load({N0!r}, {p!r})", lambda a, p=p: a.load(N0, p)))
+        res = evaluation_leaves_signal_alone(make, ops, tag)
+        if res is not None:
+            return res
 
         def cyc(L, p):
             return fl(w.cycles(L, p))
@@ -648,6 +748,27 @@ class C08(Prop):
             return (f"broadcast call raised {type(e).__name__}: {e}; mode={case['mode']}", "broadcast-error")
         mode, vals, pf = case["mode"], case["vals"], float(case["pf"])
         curves = case["curves"]
+        what = f"mode={mode} pf={pf!r} vals={vals!r} curves={curves!r}"
+        ops = [(f"broadcast evaluation ({mode}) at failure probability {pf!r}", lambda a: self._bc_raw(case, a))]
+        rows = case.get("pf_rows")
+        if rows:
+            ops.append((f"broadcast evaluation ({mode}) at per-row failure probabilities {rows!r}",
+                        lambda a: self._bc_raw(case, a, np.array(rows, dtype=np.float64))))
+        try:
+            res = evaluation_leaves_signal_alone(lambda: self._bc_signal(case), ops, what)
+        except Exception as e:
+            return (f"broadcast call raised {type(e).__name__}: {e}; {what}", "broadcast-error")
+        if res is not None:
+            return res
+        if rows:
+            _u, wf = self._bc_signal(case)
+            got_rows = self._bc_flat(case, wf, self._bc_raw(case, wf, np.array(rows, dtype=np.float64)))
+            want_rows = [fl(curve_series(c).woehler.cycles(float(v), float(q))) for c, v, q in zip(curves, vals, rows)]
+            if len(got_rows) != len(want_rows):
+                return (f"per-row probabilities: {len(got_rows)} entries, element-wise evaluation {len(want_rows)}; {what}", "broadcast")
+            for i, (a, b) in enumerate(zip(got_rows, want_rows)):
+                if not close(a, b, 1e-13):
+                    return (f"broadcast ({mode}) with per-row failure probabilities {rows!r}: entry {i} = {a!r}, scalar evaluation = {b!r}; {what}", "broadcast")
         want = []
         if mode in ("series", "array", "list"):
             w = accessor(curves[0], curve_series(curves[0]))
